@@ -342,8 +342,11 @@ void dispatchProgram(GenState &gs, Node *c) {
   gs.emitBackpatched(Instruction::Jmp(after_label));
 
   // generate program code
-  Node *name_node = c->left->left, *args_node = c->left->right->left,
-       *out_node = c->left->right->right, *body_node = c->right;
+  // the PORTS node is absent for a program without IN/OUT declarations
+  Node *name_node = c->left->left, *ports_node = c->left->right,
+       *body_node = c->right;
+  Node *args_node = ports_node != NULL ? ports_node->left : NULL,
+       *out_node = ports_node != NULL ? ports_node->right : NULL;
 
   std::string name = std::string(name_node->tok);
   gs.pushSymbols(name);
